@@ -27,6 +27,7 @@ static std::string verdictOf(const std::string & msg, bool & named)
     }
   }
   if (msg.rfind("no data received", 0) == 0) {named = true; return "nodata";}
+  if (msg == "initial message given by the caller") {return "custom";}
   return "other";
 }
 
@@ -53,11 +54,13 @@ struct Obj
   std::string kind;
   std::unique_ptr<Checkup<double>> c;
   std::unique_ptr<CheckupReliability> rel;
-  Obj(const std::string & k, long long a, long long b) : kind(k)
+  // ini: -1 default diagnostic, 0..3 an initial diagnostic with that status supplied to the constructor
+  Obj(const std::string & k, long long a, long long b, int ini = -1) : kind(k)
   {
-    if (k == "eq") {c.reset(new CheckupEqualTo<double>(NAME, (double)a, (double)b));}
-    if (k == "gt") {c.reset(new CheckupGreaterThan<double>(NAME, (double)a, (double)b));}
-    if (k == "lt") {c.reset(new CheckupLowerThan<double>(NAME, (double)a, (double)b));}
+    Diagnostic d0 = ini < 0 ? Diagnostic() : Diagnostic((DiagnosticStatus)ini, "initial message given by the caller");
+    if (k == "eq") {c.reset(new CheckupEqualTo<double>(NAME, (double)a, (double)b, d0));}
+    if (k == "gt") {c.reset(new CheckupGreaterThan<double>(NAME, (double)a, (double)b, d0));}
+    if (k == "lt") {c.reset(new CheckupLowerThan<double>(NAME, (double)a, (double)b, d0));}
     if (k == "rel") {rel.reset(new CheckupReliability(NAME, (double)a, (double)b));}
   }
   DiagnosticReport report() const {return rel ? rel->getReport() : c->getReport();}
@@ -82,9 +85,9 @@ struct Obj
   }
 };
 
-static std::string resetLine(const std::string & kind, long long a, long long b)
+static std::string resetLine(const std::string & kind, long long a, long long b, int ini = -1)
 {
-  return vh::Ev("Reset").str("kind", kind).i("a", a).i("b", b).str("init", "stale").done();
+  return vh::Ev("Reset").str("kind", kind).i("a", a).i("b", b).str("init", ini < 0 ? "stale" : "custom" + std::to_string(ini)).done();
 }
 
 static std::vector<std::pair<long long, int>> valuesNear(const std::string & kind, long long a, long long b, int near)
@@ -109,6 +112,7 @@ static void runScript(const char * path, vh::Out & out)
     std::string kind = h[1];
     long long a = vh::I(h[2]), b = vh::I(h[3]);
     int near = (int)vh::I(h[4]);
+    int ini = h.size() > 5 ? (int)vh::I(h[5]) : -1;
     size_t end = at + 1;
     bool expand = false;
     while (end < sc.size() && sc[end][0] != "R") {if (sc[end][0] == "X") {expand = true;} ++end;}
@@ -117,8 +121,8 @@ static void runScript(const char * path, vh::Out & out)
     if (expand) {acts = valuesNear(kind, a, b, near); acts.push_back({0, 9});} else {acts.push_back({0, 8});}
     for (auto & act : acts) {
       if (act.second == 9 && kind == "rel") {continue;}
-      Obj o(kind, a, b);
-      out.puts(resetLine(kind, a, b));
+      Obj o(kind, a, b, ini);
+      out.puts(resetLine(kind, a, b, ini));
       out.puts(o.first());
       for (size_t k = at + 1; k < end; ++k) {
         const auto & t = sc[k];
@@ -136,9 +140,10 @@ static void randomCheckup(vh::Rng & r, vh::Out & out)
   static const std::vector<std::string> kinds = {"eq", "gt", "lt", "rel"};
   std::string kind = r.pick(kinds);
   long long a = r.range(-50000, 50000), b = r.coin(1, 5) ? 0 : r.range(0, 40000);
-  if (kind == "rel") {b = a + (r.coin(1, 5) ? 0 : r.range(0, 40000));}
-  Obj o(kind, a, b);
-  out.puts(resetLine(kind, a, b));
+  if (kind == "rel") {b = a + (r.coin(1, 5) ? 0 : r.range(-20000, 40000));}           // thresholds in either order
+  int ini = kind != "rel" && r.coin(1, 3) ? (int)r.range(0, 3) : -1;
+  Obj o(kind, a, b, ini);
+  out.puts(resetLine(kind, a, b, ini));
   out.puts(o.first());
   auto near = valuesNear(kind, a, b, 2);
   int len = (int)r.range(1, 40);
@@ -174,7 +179,7 @@ static DiagnosticReport mkReport(vh::Rng & r, int maxd, std::vector<std::pair<lo
     long long key = r.range(1, 8), val = r.range(1, 99);
     // keys "k1".."k8" sort like their numbers
     if (rep.info.count("k" + std::to_string(key))) {continue;}
-    setReportInfo(rep, "k" + std::to_string(key), val);
+    if (val % 2) {setReportInfo(rep, "k" + std::to_string(key), val);} else {setReportInfo(rep, "k" + std::to_string(key), std::optional<long long>(val));}
   }
   for (auto & kv : rep.info) {info.push_back({std::stoll(kv.first.substr(1)), std::stoll(kv.second)});}
   return rep;
